@@ -1984,17 +1984,29 @@ namespace c08
     {
         // spaces: everything in the zoo; the cheap and typical ones more often
         static const int ZS[] = {Z_RV, Z_SE2, Z_SE2, Z_SE3, Z_SO2, Z_TORUS, Z_COMPOUND, Z_COMPOUND, Z_DUBINS, Z_RS, Z_WRAPPER,
-                                 Z_RVZERO, Z_RVHUGE, Z_SO3, Z_TIME, Z_DISC, Z_SPHERE, Z_MOBIUS, Z_KLEIN, Z_DUBINSSYM, Z_TIMEUNB};
-        int z = ZS[rng.ui(sizeof(ZS) / sizeof(int))];
+                                 Z_RVZERO, Z_RVHUGE, Z_SO3, Z_TIME, Z_DISC, Z_SPHERE, Z_MOBIUS, Z_KLEIN, Z_DUBINSSYM};
+        // An unbounded time component is left out here: its "uniform" sampler is the constant 0, sampleUniformNear is
+        // unclamped, and the motion check inside ObstacleBasedValidStateSampler then walks |dt| / 0.01 (up to 1e11) steps.
+        int z = 0;
         Zoo zoo;
-        if (!buildZoo(zoo, rng, z, sink)) return;
+        for (int attempt = 0;; ++attempt)
+        {
+            z = ZS[rng.ui(sizeof(ZS) / sizeof(int))];
+            zoo = Zoo();
+            if (!buildZoo(zoo, rng, z, sink)) return;
+            if (!zoo.root->hasUnbTime) break;
+            if (attempt >= 20)
+            {
+                sink.inconclusive("no-space-without-unbounded-time");
+                return;
+            }
+        }
         const Node &n = *zoo.root;
         Counters cnt;
         sink.count(std::string("c08_valid_cases_") + ZNAME[z]);
         Pred P;
         P.n = &n;
         coordRanges(n, P.lo, P.hi);
-        P.mode = (int)(c / 1 % 5);
         P.mode = (int)rng.ui(5);
         P.c0 = rng.uni(0.2, 0.8), P.c1 = rng.uni(0.2, 0.8), P.R = rng.uni(0.05, 0.45), P.w = rng.logUni(0.003, 0.06), P.p = rng.uni(0.15, 0.85);
         P.salt = rng.u64();
@@ -2076,7 +2088,9 @@ namespace c08
                 // samplers that return interpolants are judged like interpolants (Dubins family: heading only)
                 else if (!n.sp->satisfiesBounds(out) && !inBounds(n, out, v.viaInterpolation, &oob))
                 {
-                    sink.viol(std::string("C08:valid-sampler-oob:") + v.cls, wit());
+                    // the offending component names the root cause (the underlying state sampler or, for the two
+                    // samplers that return interpolants, the space whose interpolate produced it); sampler in the witness
+                    sink.viol(std::string("C08:valid-sampler-oob:") + oob.owner->cls(), wit());
                     dead = true;
                 }
             }
